@@ -58,12 +58,28 @@ def _prefix_vars(fn):
     return out
 
 
-def _prefix_test(test, pv) -> bool:
-    """`p`, `p != ""` for an instance-prefix variable p"""
+def _prefix_polarity(test, pv) -> int:
+    """+1 if `test` being true means "the instance prefix is non-empty" (`p`, `p != ""`), -1 if it means "empty"
+    (`not p`, `p == ""`), 0 if the test is about something else"""
+    if isinstance(test, ast.UnaryOp) and isinstance(test.op, ast.Not):
+        return -_prefix_polarity(test.operand, pv)
     if isinstance(test, ast.Name):
-        return test.id in pv
-    return isinstance(test, ast.Compare) and len(test.ops) == 1 and isinstance(test.ops[0], ast.NotEq) and isinstance(test.left, ast.Name) \
-        and test.left.id in pv and isinstance(test.comparators[0], ast.Constant) and test.comparators[0].value == ""
+        return 1 if test.id in pv else 0
+    if isinstance(test, ast.Compare) and len(test.ops) == 1 and isinstance(test.ops[0], (ast.NotEq, ast.Eq)) and isinstance(test.left, ast.Name) \
+            and test.left.id in pv and isinstance(test.comparators[0], ast.Constant) and test.comparators[0].value == "":
+        return 1 if isinstance(test.ops[0], ast.NotEq) else -1
+    return 0
+
+
+def _nonempty_assume(x, pv) -> bool:
+    """CFG assume node on whose outgoing side the instance prefix is known to be non-empty"""
+    pol = _prefix_polarity(x.ast, pv) if x.kind == "assume" else 0
+    return pol != 0 and (pol == 1) == bool(x.taken)
+
+
+def _empty_assume(x, pv) -> bool:
+    pol = _prefix_polarity(x.ast, pv) if x.kind == "assume" else 0
+    return pol != 0 and (pol == 1) != bool(x.taken)
 
 
 def _alloc_var(fn, clsname):
@@ -243,7 +259,7 @@ def r07_2(ctx, rep):
         raise MechanismMissing(R, "no statement removing keywords from <symbol>.prefixes found in flatten_symbols")
     pv = _prefix_vars(fn)
     for node, owner, kws, text in sites:
-        guards = cfg.dominated_by(node.id, lambda x: x.kind == "assume" and x.taken and _prefix_test(x.ast, pv))
+        guards = cfg.dominated_by(node.id, lambda x: _nonempty_assume(x, pv))
         rep.ob(R, site, "guard of " + text[:60], bool(guards),
                "prefix stripping must be dominated by the test that the instance prefix is non-empty (top-level inputs/outputs keep their prefix)")
     kws_all = sorted({k for _n, _o, kws, _t in sites for k in (kws or ["?"])})
@@ -274,7 +290,7 @@ def r07_2(ctx, rep):
                 break
             p_ = getattr(p_, "_parent", None)
     # with an empty prefix nothing needs stripping: those branches are not obligations
-    avoid |= {x.id for x in cfg.nodes if x.kind == "assume" and not x.taken and _prefix_test(x.ast, pv)}
+    avoid |= {x.id for x in cfg.nodes if _empty_assume(x, pv)}
     for k, r in enumerate(regs, 1):
         if r.id not in cfg.reachable(entry):
             continue
@@ -300,9 +316,11 @@ def r07_3(ctx, rep):
     pref_ok = False
     pvar = None
     for n in walk_local(fn):
-        if isinstance(n, ast.If) and _prefix_test(n.test, {name_param}):
-            b = {s.targets[0].id: norm(s.value) for s in n.body if isinstance(s, ast.Assign) and isinstance(s.targets[0], ast.Name)}
-            e = {s.targets[0].id: norm(s.value) for s in n.orelse if isinstance(s, ast.Assign) and isinstance(s.targets[0], ast.Name)}
+        pol = _prefix_polarity(n.test, {name_param}) if isinstance(n, ast.If) else 0
+        if pol:
+            nonempty, empty = (n.body, n.orelse) if pol == 1 else (n.orelse, n.body)
+            b = {s.targets[0].id: norm(s.value) for s in nonempty if isinstance(s, ast.Assign) and isinstance(s.targets[0], ast.Name)}
+            e = {s.targets[0].id: norm(s.value) for s in empty if isinstance(s, ast.Assign) and isinstance(s.targets[0], ast.Name)}
             for v in b:
                 if b[v] == "%s + CLASS_SEPARATOR" % name_param and e.get(v) in (name_param, "''"):
                     pref_ok, pvar = True, v
